@@ -59,11 +59,17 @@ func buildExprs(exprs []Expression, builder Builder, joinCond string) {
 					if e, ok := v.Exprs[0].(Expr); ok {
 						sql := strings.ToUpper(e.SQL)
 						wrapInParentheses = containsAndOr(sql)
+					} else if e, ok := v.Exprs[0].(NamedExpr); ok {
+						sql := strings.ToUpper(e.SQL)
+						wrapInParentheses = containsAndOr(sql)
 					}
 				}
 			case AndConditions:
 				if len(v.Exprs) == 1 {
 					if e, ok := v.Exprs[0].(Expr); ok {
+						sql := strings.ToUpper(e.SQL)
+						wrapInParentheses = containsAndOr(sql)
+					} else if e, ok := v.Exprs[0].(NamedExpr); ok {
 						sql := strings.ToUpper(e.SQL)
 						wrapInParentheses = containsAndOr(sql)
 					}
